@@ -179,22 +179,22 @@ AnnClauses(c, S) ==
 AnnAllClauses(c, S) ==
   LET a == c.annall
       Ms == Rng(a.mats)
-      R  == IF Ms = {} THEN 0 ELSE NR(CHOOSE m \in Ms : TRUE)
+      RR  == IF Ms = {} THEN 0 ELSE NR(CHOOSE m \in Ms : TRUE)
       U  == NodesOfKeys(Keys(S))
-      X  == IF R = Cardinality(S.nodes) THEN S.nodes ELSE U
-      Shapes == \A m \in Ms : Square(m) /\ NR(m) = R
-      GoodWith(f, tt) == \A m \in Ms : \A i, j \in 1..R : m.M[i][j] * tt = AnnealedNumD(S, m.d, f[i], f[j]) * m.q
+      X  == IF RR = Cardinality(S.nodes) THEN S.nodes ELSE U
+      Shapes == \A m \in Ms : Square(m) /\ NR(m) = RR
+      GoodWith(f, tt) == \A m \in Ms : \A i, j \in 1..RR : m.M[i][j] * tt = AnnealedNumD(S, m.d, f[i], f[j]) * m.q
       Good(f) == \E tt \in Denoms(S) : GoodWith(f, tt)
-      Own == [i \in 1..R |-> NodeAt(c.tmap, i)]
-      OwnOK == X = S.nodes /\ MapOK([map |-> c.tmap, shape |-> <<R, 0>>], S.nodes)
+      Own == [i \in 1..RR |-> NodeAt(c.tmap, i)]
+      OwnOK == X = S.nodes /\ MapOK([map |-> c.tmap, shape |-> <<RR, 0>>], S.nodes)
   IN {<<"annealed_adjacency_matrices_all_orders:returned", Ret(a)>>,
       <<"annealed_adjacency_matrices_all_orders:orders", Ret(a) =>
             /\ OrdersPresent(S) \subseteq {m.d : m \in Ms}
             /\ Cardinality({m.d : m \in Ms}) = Len(a.mats)>>,
-      <<"annealed_adjacency_matrices_all_orders:shape", Ret(a) => (Shapes /\ R = Cardinality(X))>>,
-      <<"annealed_adjacency_matrices_all_orders:entries", (Ret(a) /\ Shapes /\ R = Cardinality(X)) =>
+      <<"annealed_adjacency_matrices_all_orders:shape", (Ret(a) /\ Ms # {}) => (Shapes /\ RR = Cardinality(X))>>,
+      <<"annealed_adjacency_matrices_all_orders:entries", (Ret(a) /\ Ms # {} /\ Shapes /\ RR = Cardinality(X)) =>
             \/ OwnOK /\ Good(Own)
-            \/ R <= 5 /\ \E f \in {g \in [1..R -> X] : \A p, q \in 1..R : p # q => g[p] # g[q]} : Good(f)>>}
+            \/ RR <= 5 /\ \E f \in {g \in [1..RR -> X] : \A p, q \in 1..RR : p # q => g[p] # g[q]} : Good(f)>>}
 
 TFactorClauses(c, S) ==
   LET Rs == Rng(c.factor) IN
